@@ -19,6 +19,13 @@ type Op struct {
 	V   int  `json:"v"`
 	// Clone: replace the tree by its Clone() and carry on with the clone (Add/V ignored)
 	Clone bool `json:"clone,omitempty"`
+	// K: "" (Add/Remove as above) | "clear" (Clear, then carry on) | "move" (the Tree value is copied to a new
+	// place and only the copy is used from then on - New and Clone return a Tree by value, so every tree is moved at
+	// least once) | "has" (Contains(V)) | "probe" (Contains(V), then N successful modifications - present elements
+	// removed and added again in turn - then Add(V): nothing an unsuccessful lookup leaves behind may be trusted
+	// after later modifications, however many: N is around 2^8 and 2^16)
+	K string `json:"k,omitempty"`
+	N int    `json:"n,omitempty"`
 }
 
 type Case struct {
@@ -188,7 +195,7 @@ func same(a, b *shape.Node) bool {
 func Run(c Case) pbt.Outcome {
 	ops := expand(c)
 	calls := 0
-	tr := avl.New(func(a, b int) int {
+	trv := avl.New(func(a, b int) int {
 		calls++
 		if c.Weak {
 			a, b = a>>10, b>>10
@@ -201,6 +208,7 @@ func Run(c Case) pbt.Outcome {
 		}
 		return 0
 	})
+	tr := &trv
 	nextTag := 0
 	present := map[int]int{}
 	n := 0
@@ -211,16 +219,63 @@ func Run(c Case) pbt.Outcome {
 	var out pbt.Outcome
 	var prev *shape.Node
 	sawDouble, sawSingle, sawClone, maxN := false, false, false, 0
+	sawClear, sawMove, sawProbe := false, false, 0
 	nextCheck := 0
 	for i, op := range ops {
 		v := op.V
 		if op.Clone {
-			tr = tr.Clone()
+			cl := tr.Clone()
+			tr = &cl
 			if tr.Len() != n {
 				return pbt.Fail("op %d: Clone of a tree with %d elements has Len %d", i, n, tr.Len())
 			}
 			sawClone = true
 			continue
+		}
+		switch op.K {
+		case "clear":
+			tr.Clear()
+			present = map[int]int{}
+			n = 0
+			sawClear = true
+			if tr.Len() != 0 || len(tr.SliceInOrder()) != 0 {
+				return pbt.Fail("op %d: after Clear the tree has Len %d and in-order %v", i, tr.Len(), tr.SliceInOrder())
+			}
+			continue
+		case "move":
+			moved := new(avl.Tree[int])
+			*moved = *tr
+			tr = moved
+			sawMove = true
+			continue
+		case "has":
+			if c.Weak {
+				continue
+			}
+			if got := tr.Contains(v); got != (present[v] > 0) {
+				return pbt.Fail("op %d: Contains(%d) = %v but model count is %d", i, v, got, present[v])
+			}
+			continue
+		case "probe":
+			if c.Weak || present[v] > 0 {
+				continue
+			}
+			if tr.Contains(v) {
+				return pbt.Fail("op %d: Contains(%d) = true for an absent value", i, v)
+			}
+			in := tr.SliceInOrder()
+			if len(in) < 3 {
+				continue
+			}
+			for k := 0; k < op.N/2; k++ {
+				x := in[(k*7)%len(in)]
+				if !tr.Remove(x) {
+					return pbt.Fail("op %d: during %d modifications Remove(%d) of a present value returned false", i, op.N, x)
+				}
+				tr.Add(x)
+			}
+			sawProbe = max(sawProbe, op.N)
+			op.Add = true // and now Add(v), checked like every Add
 		}
 		if c.Weak {
 			if op.Add {
@@ -336,6 +391,17 @@ func Run(c Case) pbt.Outcome {
 	if sawClone {
 		out.Labels = append(out.Labels, "continued-on-a-clone")
 	}
+	if sawClear {
+		out.Labels = append(out.Labels, "continued-after-Clear")
+	}
+	if sawMove {
+		out.Labels = append(out.Labels, "tree-value-moved")
+	}
+	if sawProbe >= 65536 {
+		out.Labels = append(out.Labels, "add-after-failed-lookup-and->=65536-modifications")
+	} else if sawProbe > 0 {
+		out.Labels = append(out.Labels, "add-after-failed-lookup-and-modifications")
+	}
 	if sawSingle {
 		out.Labels = append(out.Labels, "single-rotation")
 	}
@@ -411,7 +477,7 @@ var specStruct = pbt.Register(&pbt.Spec[Case]{
 
 var specHist = pbt.Register(&pbt.Spec[Case]{
 	Property: "C02", Name: "C02.hist",
-	Rule: "rapid histories of Add/Remove (values 0..U, U in {15,40,120,400}; distinct mode skips Adds of present values, dup mode allows duplicates with U in {12,40}; a third of the histories also replace the tree by its Clone() now and then and carry on with the clone; a sixth use a WEAK order - comparator on a key, elements distinguishable by a tag - where only balance is asserted); " + rule,
+	Rule: "rapid histories of Add/Remove (values 0..U, U in {15,40,120,400}; distinct mode skips Adds of present values, dup mode allows duplicates with U in {12,40}; a third of the histories also replace the tree by its Clone() now and then and carry on with the clone; a third also Clear the tree and carry on, move the Tree value to a new place, call Contains, and do 'failed Contains(v), N modifications (N around 0, 2^8, 2^16, 2^17), Add(v)'; a sixth use a WEAK order - comparator on a key, elements distinguishable by a tag - where only balance is asserted); " + rule,
 	Gen: func(t *rapid.T) Case {
 		dup := rapid.IntRange(0, 4).Draw(t, "dup") == 0
 		var u int
@@ -425,9 +491,22 @@ var specHist = pbt.Register(&pbt.Spec[Case]{
 		}
 		addBias := rapid.SampledFrom([]int{50, 65, 80}).Draw(t, "addbias")
 		withClone := rapid.IntRange(0, 2).Draw(t, "withclone") == 0
+		extras := rapid.IntRange(0, 2).Draw(t, "extras") == 1
 		op := rapid.Custom(func(t *rapid.T) Op {
 			if withClone && rapid.IntRange(0, 19).Draw(t, "cl") == 0 {
 				return Op{Clone: true}
+			}
+			if extras {
+				switch rapid.IntRange(0, 24).Draw(t, "extra") {
+				case 3:
+					return Op{K: "clear"}
+				case 7, 8:
+					return Op{K: "move"}
+				case 11, 12, 13:
+					return Op{K: "has", V: rapid.IntRange(0, u).Draw(t, "v")}
+				case 17:
+					return Op{K: "probe", V: rapid.IntRange(0, u).Draw(t, "v"), N: rapid.SampledFrom([]int{0, 2, 6, 254, 256, 258, 65534, 65536, 65536, 131072}).Draw(t, "n")}
+				}
 			}
 			return Op{Add: rapid.IntRange(0, 99).Draw(t, "a") < addBias, V: rapid.IntRange(0, u).Draw(t, "v")}
 		})
